@@ -272,7 +272,7 @@ func ruleC15R2(c *Ctx) {
 				var verdict, why string
 				switch x := r.(type) {
 				case *ssa.Call:
-					if isAtomicCall(x.Common()) {
+					if isAtomicCall(x.Common()) || paramOnlyAtomic(x, fa, isAtomicCall) {
 						verdict = "ok"
 					} else {
 						verdict, why = "bad", "its address is handed to a non-atomic function"
@@ -490,4 +490,33 @@ func ruleC15R4(c *Ctx) {
 		ex.Run()
 		c.Check(!bad && !ex.Exceeded, key, c.Pos(r.Pos()), "every return path calls asyncTasks.Done()", "a return path of the loop skips asyncTasks.Done(): Close() waits forever")
 	}
+}
+
+// paramOnlyAtomic: the address is passed to a repository helper whose corresponding
+// parameter is used only as the address argument of sync/atomic functions.
+func paramOnlyAtomic(call *ssa.Call, addr ssa.Value, isAtomicCall func(*ssa.CallCommon) bool) bool {
+	callee := call.Common().StaticCallee()
+	if callee == nil || callee.Blocks == nil {
+		return false
+	}
+	for i, arg := range call.Common().Args {
+		if arg != addr || i >= len(callee.Params) {
+			continue
+		}
+		p := callee.Params[i]
+		if p.Referrers() == nil || len(*p.Referrers()) == 0 {
+			return false
+		}
+		for _, r := range *p.Referrers() {
+			c2, ok := r.(*ssa.Call)
+			if !ok || !isAtomicCall(c2.Common()) || c2.Common().Args[0] != ssa.Value(p) {
+				if _, isDbg := r.(*ssa.DebugRef); isDbg {
+					continue
+				}
+				return false
+			}
+		}
+		return true
+	}
+	return false
 }
